@@ -19,7 +19,8 @@ import ast
 import os
 
 from py2lean import Unsupported, find_func, lean_table, span_sha, strip_doc, translate_block
-from targets_C07 import Pre, _and, _eq, _fix, _not, _or, _raise, _uid_consts
+from targets_C07 import (Pre, _and, _eq, _fix, _not, _or, _raise, _uid_consts,
+                         check_enum_args_normalised_first)
 
 NP_TYPES = {'bool_': 'bool', 'uint8': 'uint8', 'uint16': 'uint16', 'uint32': 'uint32', 'int8': 'int8', 'int16': 'int16',
             'float32': 'float32', 'float64': 'float64'}
@@ -271,6 +272,8 @@ SC_OUT = ['BitsAllocated', 'BitsStored', 'HighBit', 'PixelRepresentation', 'Samp
 def build_T19s(tree):
     init = find_func(tree, 'SCImage.__init__')
     body = strip_doc(init.body)
+    # the caller may spell these as enum members or as their values: nothing may read them before they are normalised
+    check_enum_args_normalised_first(body, ('photometric_interpretation', 'coordinate_system'))
     start = end = None
     for i, s in enumerate(body):
         if isinstance(s, ast.Assign) and ast.unparse(s.targets[0]) == 'allowed_types':
